@@ -345,6 +345,11 @@ def run_enumerated(
     max_base = profile.get("max_base", 14)
     dev = ctx.sut.device
 
+    # swarm: a fifth of the runs apply the catalogues at a seeded SUBSET of
+    # positions and entries instead of everywhere (see probes())
+    sparse = fr.random() < profile.get("sparse_p", 0.2)
+    ctx.stats["runs_sparse" if sparse else "runs_fully_enumerated"] += 1
+
     def probes():
         snap = st.cur
         # biased-state probes (evidence)
@@ -366,13 +371,19 @@ def run_enumerated(
             cat = cat + faults.after_measure_calls(snap, ctx)
         if profile.get("fork_faults"):
             cat = cat + faults.fork_calls(snap, ctx)
+        obs = c09.observer_catalogue(st.cur, ctx, fr)
+        if sparse:
+            # hidden state left behind by ONE query or refused call can only go
+            # stale if the same query is not repeated at the next position
+            cat = [c for c in cat if fr.random() < 0.25] if fr.random() < 0.5 else []
+            obs = [o for o in obs if fr.random() < 0.3] if fr.random() < 0.6 else []
         ctx.stats["enumerated_bad_calls"] += len(cat)
         for tag, op in cat:
             ctx.stats["fault/bad/configured"] += 1
             st.step("fault", op, "bad/" + tag)
             if st.fatal:
                 return
-        for op in c09.observer_catalogue(st.cur, ctx, fr):
+        for op in obs:
             ctx.stats["fault/observe/configured"] += 1
             st.step("observer", op, "observe/" + op["op"])
             if st.fatal:
